@@ -47,7 +47,7 @@ func proveCountLE(fn *ssa.Function, start, end ssa.Value, at *ssa.BasicBlock, bo
 	}
 	var why []string
 	for _, c := range cases(end, base, 3) {
-		count := linOf(c.V).add(linOf(start), -1).add(linConst(1), 1)
+		count := c.lin(c.V).add(c.lin(start), -1).add(linConst(1), 1)
 		ok := false
 		for _, m := range mids {
 			if e, w := entails(c.Hyps, count.add(m, -1)); e {
@@ -210,7 +210,8 @@ func c16(p *P) {
 		} else {
 			p.guarded("C16.R3", cl, sends,
 				cmpRel("cert.Instance == First+i", `\.GPBFTInstance$`, `FirstInstance \+ `, RelNE),
-				cmpRel("i < Limit", `^phi\(`, `\.Limit$`, RelEQ),
+				// classic loop (i < Limit tested at the top) or rotated range-over-int loop (0 < Limit on entry, i+1 < Limit on the back edge)
+				union(cmpRel("", `^phi\(`, `\.Limit$`, RelEQ), cmpRel("", `^\(phi\(.*\) \+ 1\)$`, `\.Limit$`, RelEQ), cmpRel("", `^0$`, `\.Limit$`, RelEQ)).named("i < Limit"),
 				canonIs("decode ok", `^certs\.FinalityCertificate\.UnmarshalCBOR\(`, avNonNil))
 			dec := callSinks(cl, "decode", "certs.FinalityCertificate.UnmarshalCBOR")
 			var resets []Sink
